@@ -113,8 +113,8 @@ CLAIMED["C08"] = dict(
          "(C08_sync_rechecks_owner); an expiry only appends to the queue and fires at most once (C08_expiry_only_queues, C08_at_most_once); stop leaves nothing armed (C08_stop_silences). The statement 'an expiry of an earlier activation has no effect' is refuted for the "
          "async engine with a kernel-checked witness (C08_stale_refuted = recorded finding F8: after-events are matched by type only). Tied to the "
          "code by K-macro on a virtual clock (asyncio loop and threading.Timer replaced by deterministic virtual-time schedulers) with timed ops, "
-         "re-entry before expiry, slow actions overlapping expiries; wall-clock accuracy of real timers is outside the model.",
-    technique="Coq proof over executable timer-bookkeeping model + vm_compute correspondence on a virtual clock",
+         "re-entry before expiry, slow actions overlapping expiries; wall-clock accuracy of real timers is outside the model. TIE T: that a state's timers are cancelled BEFORE its exit actions run (asyncio engine: state by state; sync engine: all cancellations first) is read off the source - the effect skeleton of _exit_states, extracted from both engines' copies on every run, interpreted over the model's effect primitives, is the model's exit_states (C08_exit_order_is_the_source_async / _sync).",
+    technique="Coq proof over executable timer-bookkeeping model + vm_compute correspondence on a virtual clock + source-extracted exit skeleton (tie T)",
     design_ref="DESIGN.md section 5 C08")
 CLAIMED["C09"] = dict(
     category="proof",
@@ -123,8 +123,8 @@ CLAIMED["C09"] = dict(
          "fails the machine (C09_one_outcome, C09_unhandled_error_status, C09_handled_error_keeps_running, C09_missing_service_is_fatal). 'A completion from an earlier activation is ignored' is refuted "
          "with a kernel-checked witness (C09_current_activation_only_refuted = finding F9); tasks leaked by a rolled-back entry are finding F19. "
          "Tied to the code by K-macro with scripted services (duration, outcome, value) on the virtual clock, both engines; real coroutine "
-         "scheduling / thread pools are outside the model.",
-    technique="Coq proof over executable service-bookkeeping model + vm_compute correspondence on a virtual clock",
+         "scheduling / thread pools are outside the model. TIE T: that a state's services are cancelled BEFORE its exit actions run is read off the source - the effect skeleton of _exit_states, extracted from both engines' copies on every run, interpreted over the model's effect primitives, is the model's exit_states (C09_exit_order_is_the_source_async / _sync).",
+    technique="Coq proof over executable service-bookkeeping model + vm_compute correspondence on a virtual clock + source-extracted exit skeleton (tie T)",
     design_ref="DESIGN.md section 5 C09")
 CLAIMED["C11"] = dict(
     category="proof",
@@ -168,8 +168,8 @@ CLAIMED["C16"] = dict(
          "in a legal one; the _h variants cover machines with transitions to history states (where the restored entry order was defect F3). "
          "The model being a function, equal inputs give equal traces. Tied to the code by K-macro and by "
          "re-running the implementation in subprocesses under different PYTHONHASHSEED values / heap layouts / both engines with byte-for-byte trace "
-         "comparison. Generated identifiers and actor ids are only covered by the subprocess comparison.",
-    technique="Coq proof (permutation invariance via canonical sorting) + vm_compute correspondence + hash-seed subprocess differential",
+         "comparison. Generated identifiers and actor ids are only covered by the subprocess comparison. TIE T: the regions of a parallel state entered by default are, in both engines' _enter_states as re-translated from the current source, the children in DOCUMENT order minus history children and the regions the entry list names - a filter of an ordered list, no set (C16_regions_entered_in_document_order).",
+    technique="Coq proof (permutation invariance via canonical sorting) + vm_compute correspondence + hash-seed subprocess differential + source-translated default descent (tie T)",
     design_ref="DESIGN.md section 5 C16")
 
 CLAIMED["C01"] = dict(
